@@ -119,7 +119,7 @@ class Target:
     """a CBMC/DFCC verification unit: one enforced contract over extracted functions"""
 
     def __init__(self, name, fns, prelude, enforce=None, replace=(), harness=None, loops=None, checks=None,
-                 source=None, note='', cbmc_flags=(), timeout=None, enforce_none=False, defines=()):
+                 source=None, note='', cbmc_flags=(), timeout=None, enforce_none=False, defines=(), unwind=None):
         self.defines = list(defines)
         self.name = name
         self.fns = fns
@@ -134,6 +134,11 @@ class Target:
         self.note = note
         self.cbmc_flags = list(cbmc_flags)
         self.timeout = timeout or CBMC_TIMEOUT
+        # loops WITHOUT a loop contract whose bound is a constant at every call site (e.g. a template rank): DFCC wants
+        # them unwound before instrumentation; `unwind=N` unwinds every loop N times WITH unwinding assertions, so a
+        # loop that can run longer is a failed obligation, never a silent truncation.  Only for targets whose functions
+        # carry no loop contracts.
+        self.unwind = unwind
 
     def auto_harness(self, P):
         decls = []
@@ -249,6 +254,14 @@ class Target:
             res.update(status='undecided', reason='goto-instrument --nondet-static failed: ' + (so + se)[-1500:])
             return res
         gb = gb1
+        if self.unwind:
+            gbu = cfile[:-2] + '.unw.gb'
+            rc, so, se, dt = run(['goto-instrument', '--unwind', str(self.unwind), '--unwinding-assertions', gb, gbu], 120)
+            res['seconds']['goto-instrument'] += dt
+            if rc != 0:
+                res.update(status='undecided', reason='goto-instrument --unwind failed: ' + (so + se)[-1500:])
+                return res
+            gb = gbu
         cmd = ['goto-instrument', '--dfcc', 'main']
         if self.enforce:
             cmd += ['--enforce-contract', self.enforce]
@@ -263,7 +276,8 @@ class Target:
             res.update(status='undecided', reason='goto-instrument failed: ' + (so + se)[-1500:])
             return res
         cmd = ['cbmc', gb2] + self.checks + ['--json-ui', '--trace', '--no-standard-checks'] + self.cbmc_flags
-        res['checker_cmd'] = ' '.join(['goto-cc … |', 'goto-instrument --dfcc main'] +
+        res['checker_cmd'] = ' '.join(['goto-cc … |'] + ([f'goto-instrument --unwind {self.unwind} --unwinding-assertions |'] if self.unwind else []) +
+                                      ['goto-instrument --dfcc main'] +
                                       ([f'--enforce-contract {self.enforce}'] if self.enforce else []) +
                                       [f'--replace-call-with-contract {g}' for g in self.replace_used] +
                                       ['--apply-loop-contracts |'] + ['cbmc'] + self.checks + self.cbmc_flags)
